@@ -86,7 +86,8 @@ class KernelOracle:
         try:
             la, xs, faulted = self._log_alpha()
         except core.Undecided as e:
-            ctx.undecided(str(e))
+            if str(e) != "__already_judged__":
+                ctx.undecided(str(e))
             self.sites.append({"expect": None})
             return None
         tape_u = float(np.ravel(tape_value)[0])
@@ -227,6 +228,12 @@ class KernelOracle:
                     d = cand
                     break
             if d is None:
+                # the likelihood-only ratio of pCN is the MH ratio only for the prior-reversible proposal: noise with the
+                # prior's covariance about a Crank-Nicolson mean.  A draw that has another covariance is another mechanism.
+                quad_ = float((xs - a * x - (1 - a) * m) @ Cinv @ (xs - a * x - (1 - a) * m))
+                if np.isfinite(quad_) and 0 < s <= 1 and np.all(np.isfinite(xs)):
+                    self.ctx.violate(PROP, "pcn_proposal_not_prior_reversible", self.sig(), quad=quad_, expected=float(b * b * (e @ e)))
+                    raise core.Undecided("__already_judged__")
                 raise core.Undecided("pcn proposal is not N(a*x + d, b^2 C)")
             ll, lls = self.refs["ref_loglik"](x), self.refs["ref_loglik"](xs)
             lp, lps = _logmvn_quad(x, m, Cinv), _logmvn_quad(xs, m, Cinv)
@@ -329,6 +336,10 @@ def _prior_moments(rec):
         C = np.eye(n) * rec.get("prior_cov", 0.8)
     elif k == "gauss_vec":
         C = np.diag(np.linspace(0.5, 1.5, n))
+    elif k == "gauss_sqrtprec_full":
+        rs = np.random.RandomState(rec["zseed"] + 7)
+        R = np.eye(n) + rs.randn(n, n) * 0.3
+        C = np.linalg.inv(R.T @ R)
     else:
         rs = np.random.RandomState(rec["zseed"] + 7)
         B = rs.randn(n, n) * 0.3
